@@ -403,6 +403,8 @@ def one_case(ctx, cid, rng, path, idx):
             want, _ = ref_binning(bt, [r for r in flipped if not (r[4] == "bad" and first_anchor_bad)], "reflect")
             txt = os.path.join(d, "in.pairs.txt")
             write_lines(txt, [(r[0], r[1] + shift, r[2], r[3] + shift) for r in flipped])
+            if max(r[1] for r in flipped) + shift >= 2**29:
+                return                  # a .tbi index cannot address positions beyond 512 Mb (harness limit, not cooler's)
             gzp = pysam.tabix_index(txt, force=True, seq_col=0, start_col=1, end_col=1, zerobased=not one_based)
             cs = gen.bt_chromsizes(bt)
             raised = None
